@@ -240,4 +240,15 @@ def blockEquivL (x y : List ALine) : Bool := blocks x == blocks y
 
 def linesOf (d : Dev) (n : Name) : List ALine := (entriesOf d n).map (·.2)
 
+
+/-- The device state as a configuration to compare again (route-free examples: routes carry no
+parsed destination here). -/
+def toConfig (d : Dev) : Config :=
+  { intfs := d.intfs.map fun i =>
+      { name := i.name, vrf := i.vrf, addr := "x",
+        binds := (match i.inB with | some a => [⟨a, "in"⟩] | none => []) ++
+                 (match i.outB with | some a => [⟨a, "out"⟩] | none => []) },
+    acls := d.acls.map fun a => (a.1, a.2.map (·.2)),
+    routes := [] }
+
 end NA.IosDev2
